@@ -603,3 +603,95 @@ Theorem C06_existing_destination_key_inside : forall s f np dp dn,
   is_prefix_path (pf_dir f) dp = true.
 Proof. exact dest_key_inside. Qed.
 Print Assumptions C06_existing_destination_key_inside.
+
+(* ---- the whole program (Whole/Main.v [tempren_main]; proofs: Whole/PipelineProps.v) ---- *)
+From Coq Require Import Permutation.
+From Tempren Require Import Pipe.FrontCompile Whole.Library Whole.Render Whole.Gather Whole.Main Whole.Facts Whole.PipelineProps
+  Whole.Examples.
+
+(* [input_roots o s dirs]: the directories the gathered files are relative to - the real path of each input directory
+   ([chdir], symbolic links in the input path followed); in directory mode without -r, where the input directories
+   THEMSELVES are renamed, the real path of the parent of each input directory. *)
+Theorem C06_whole_roots : forall o s dirs p,
+  In p (input_roots o s dirs) <->
+  exists d, In d dirs /\
+    if explicit_mode o then chdir s d <> None /\ d <> [] /\ chdir s (removelast d) = Some p
+    else chdir s d = Some p.
+Proof. exact input_roots_spec. Qed.
+Print Assumptions C06_whole_roots.
+
+(* For EVERY template text (compiling or not, whatever it renders: absolute paths, "..", paths through links),
+   registry, mode, STRATEGY (override and the manual prompt included), -r, -ih, sort, dry or real, fault index, listing
+   order, and every tree with ordinary names ([tree_ok]; symbolic links allowed elsewhere): every entry that differs
+   between the initial tree and ANY state of the run (the final one included) lies at or below a root.
+   Hypotheses, exactly those of the plan-level theorem C06_run_confined_static_any_strategy read on the program's own
+   plan: no root strictly below another root ([roots_not_nested], a hypothesis on the input paths); no symbolic link at
+   or below a root ([no_links_below]); in path mode no "custom path" answer at the manual prompt.  That every gathered
+   file's directory is its own real path ([chdir s (pf_dir f) = Some (pf_dir f)]) is proved, not assumed. *)
+Theorem C06_whole_confined : forall upper lower R o text dirs s,
+  tree_ok s -> (forall l, Permutation l (o_listing o l)) ->
+  roots_not_nested (input_roots o s dirs) -> no_links_below (input_roots o s dirs) s ->
+  (o_mode o = MPath -> o_strategy o = Manual -> Forall (fun a => parse_answer a <> ACustom) (o_answers o)) ->
+  let r := tempren_main upper lower R o text dirs s in
+  forall h, In h (r_final r :: r_states r) -> forall k n,
+    (In (k, n) h /\ ~ In (k, n) s) \/ (In (k, n) s /\ ~ In (k, n) h) ->
+    exists p, In p (input_roots o s dirs) /\ is_prefix_path p k = true.
+Proof. exact whole_confined_static. Qed.
+Print Assumptions C06_whole_confined.
+
+(* the form with the hypothesis on the run instead of on the tree (as C06_run_confined_any_strategy): symbolic links
+   anywhere, provided no state of the run has moved one *)
+Theorem C06_whole_confined_same_links : forall upper lower R o text dirs s,
+  tree_ok s -> (forall l, Permutation l (o_listing o l)) ->
+  roots_not_nested (input_roots o s dirs) ->
+  (o_mode o = MPath -> o_strategy o = Manual -> Forall (fun a => parse_answer a <> ACustom) (o_answers o)) ->
+  let r := tempren_main upper lower R o text dirs s in
+  Forall (same_links s) (r_states r) ->
+  forall h, In h (r_final r :: r_states r) -> forall k n,
+    (In (k, n) h /\ ~ In (k, n) s) \/ (In (k, n) s /\ ~ In (k, n) h) ->
+    exists p, In p (input_roots o s dirs) /\ is_prefix_path p k = true.
+Proof. exact whole_confined_same_links. Qed.
+Print Assumptions C06_whole_confined_same_links.
+
+Theorem C06_whole_hypotheses_spelled_out : forall D s,
+  (roots_not_nested D <-> forall p p', In p D -> In p' D -> is_prefix_path p p' = true -> p = p') /\
+  (no_links_below D s <-> forall k i t p, In (k, NLink i t) s -> In p D -> is_prefix_path p k = false) /\
+  (roots_not_nested_b D = true -> roots_not_nested D) /\
+  (no_links_below_b D s = true -> no_links_below D s).
+Proof. exact confined_hypotheses_spec. Qed.
+Print Assumptions C06_whole_hypotheses_spelled_out.
+
+(* n/%Name() in path mode, -r, on the example tree: a directory is made and four files are moved, all below in/ *)
+Definition t_n_name : str := [110; 47; 37; 78; 97; 109; 101; 40; 41].
+
+Example C06_whole_example :
+  let o := ex_options MPath true false in
+  let r := ex_main o t_n_name ex_dirs ex_tree in
+  input_roots o ex_tree ex_dirs = [[Examples.ex_in]] /\
+  input_roots (ex_options MDirectory false false) ex_tree ex_dirs = [[]] /\
+  r_status r = 0%Z /\ length (r_states r) = 5%nat /\
+  lookup (r_final r) [Examples.ex_in; [110]; [99]] = Some (NFile 4) /\
+  lookup (r_final r) [Examples.ex_in; [115]; [99]] = None /\
+  lookup (r_final r) [[111; 116; 104; 101; 114]; [122]] = Some (NFile 6).
+Proof. vm_compute. repeat split; reflexivity. Qed.
+
+Example C06_whole_example_by_theorem :
+  forall h, In h (r_final (tempren_main ascii_upper_str ascii_lower_str core_reg (ex_options MPath true false) t_n_name ex_dirs ex_tree) ::
+                  r_states (tempren_main ascii_upper_str ascii_lower_str core_reg (ex_options MPath true false) t_n_name ex_dirs ex_tree)) ->
+  forall k n,
+    (In (k, n) h /\ ~ In (k, n) ex_tree) \/ (In (k, n) ex_tree /\ ~ In (k, n) h) ->
+    is_prefix_path [Examples.ex_in] k = true.
+Proof.
+  intros h Ih k n D.
+  destruct (C06_whole_confined ascii_upper_str ascii_lower_str core_reg (ex_options MPath true false) t_n_name ex_dirs ex_tree)
+    with (h := h) (k := k) (n := n) as (p & Ip & Pp).
+  - apply tree_ok_b_sound. vm_compute. reflexivity.
+  - exact permutes_id.
+  - apply roots_not_nested_b_sound. vm_compute. reflexivity.
+  - apply no_links_below_b_sound. vm_compute. reflexivity.
+  - intros _ St. discriminate St.
+  - exact Ih.
+  - exact D.
+  - assert (E : input_roots (ex_options MPath true false) ex_tree ex_dirs = [[Examples.ex_in]]) by (vm_compute; reflexivity).
+    rewrite E in Ip. destruct Ip as [<-|[]]. exact Pp.
+Qed.
